@@ -172,150 +172,351 @@ theorem receiveMalAt_assign (R0 R1 : Nat → Nat → Byte) (st : RecvSt) (b : Ar
   rw [receiveAt_assign _ _ _ _ _ (by simp [zerosL, size_bcvOf])]
   rfl
 
-/-! ### Packed-bit form: the loops OR into what the buffers held -/
+/-! ### Packed-bit form on the caller's words -/
 
-/-- `w` is `res` with the bits of `w0` ORed in. -/
-def OrOf (res w0 w : Words) : Prop := w.size = res.size ∧ ∀ j, bitAt w j = (bitAt res j || bitAt w0 j)
+@[simp] theorem size_clearBit (r : Words) (idx : Nat) : (clearBit r idx).size = r.size := by simp [clearBit]
 
-/-- `ReceiveBits`: stream state and chunks do not depend on the result buffer,
-and the buffer ends as its old content OR a pattern `D` that does not depend
-on it either. -/
-theorem recvBitsLoop_or (wf : Nat → Nat) (R0 R1 : Nat → Nat → Byte) (ch : Words) (n : Nat) :
-    ∀ (fuel ofs : Nat) (st : RecvSt), ∃ (st' : RecvSt) (msgs : List Bytes) (D : Nat → Bool),
+theorem bitAt_clearBit (r : Words) (idx j : Nat) (h : idx / 64 < r.size) :
+    bitAt (clearBit r idx) j = (bitAt r j && !decide (j = idx)) := by
+  unfold bitAt clearBit
+  by_cases hw : j / 64 = idx / 64
+  · have hj : j / 64 < r.size := by omega
+    simp only [Array.getD_eq_getD_getElem?, Array.getElem?_modify, hw]
+    simp [h, BitVec.getLsbD_shiftLeft, BitVec.getLsbD_one]
+    have h64 : j % 64 < 64 := Nat.mod_lt _ (by decide)
+    by_cases he : j = idx
+    · subst he; simp [h64]
+    · have : ¬ (j % 64 = idx % 64) := by omega
+      simp [he, h64]; omega
+  · simp only [Array.getD_eq_getD_getElem?, Array.getElem?_modify]
+    have : ¬ (idx / 64 = j / 64) := fun e => hw e.symm
+    simp [this]
+    intro _ he; subst he; exact absurd rfl hw
+
+theorem storeRows_orOnly (r : Words) (ofs rows : Nat) (bit : Nat → Bool) :
+    storeRows .orOnly r ofs rows bit = orRows r ofs rows bit := rfl
+
+theorem storeRows_write_spec (r : Words) (ofs : Nat) (bit : Nat → Bool) :
+    ∀ rows, (ofs + rows + 63) / 64 ≤ r.size →
+      (storeRows .write r ofs rows bit).size = r.size ∧
+      ∀ j, bitAt (storeRows .write r ofs rows bit) j =
+        if ofs ≤ j ∧ j < ofs + rows then bit (j - ofs) else bitAt r j := by
+  intro rows
+  induction rows with
+  | zero =>
+    intro _
+    refine ⟨rfl, fun j => ?_⟩
+    have : ¬ (ofs ≤ j ∧ j < ofs + 0) := by omega
+    rw [if_neg this]
+    rfl
+  | succ k ih =>
+    intro h
+    obtain ⟨i1, i2⟩ := ih (by omega)
+    have hk : (ofs + k) / 64 < (storeRows .write r ofs k bit).size := by rw [i1]; omega
+    have e : storeRows .write r ofs (k + 1) bit =
+        (if bit k then setBit (storeRows .write r ofs k bit) (ofs + k)
+         else clearBit (storeRows .write r ofs k bit) (ofs + k)) := by
+      simp [storeRows, List.range_succ, List.foldl_append]
+    rw [e]
+    constructor
+    · split <;> simp [i1]
+    · intro j
+      by_cases hb : bit k
+      · rw [if_pos hb, bitAt_setBit _ _ _ hk, i2 j]
+        by_cases hj : j = ofs + k
+        · subst hj
+          have : ofs ≤ ofs + k ∧ ofs + k < ofs + (k + 1) := by omega
+          simp [this, hb]
+        · by_cases hr : ofs ≤ j ∧ j < ofs + k
+          · have : ofs ≤ j ∧ j < ofs + (k + 1) := by omega
+            simp [hr, this, hj]
+          · have : ¬ (ofs ≤ j ∧ j < ofs + (k + 1)) := by omega
+            simp [hr, this, hj]
+      · rw [if_neg hb, bitAt_clearBit _ _ _ hk, i2 j]
+        by_cases hj : j = ofs + k
+        · subst hj
+          have : ofs ≤ ofs + k ∧ ofs + k < ofs + (k + 1) := by omega
+          simp [this, hb]
+        · by_cases hr : ofs ≤ j ∧ j < ofs + k
+          · have : ofs ≤ j ∧ j < ofs + (k + 1) := by omega
+            simp [hr, this, hj]
+          · have : ¬ (ofs ≤ j ∧ j < ofs + (k + 1)) := by omega
+            simp [hr, this, hj]
+
+/-- The OR-only loops are the packed-bit loops of Model/Iknp.lean. -/
+theorem recvBitsLoopS_orOnly (R0 R1 : Nat → Nat → Byte) (ch : Words) (n : Nat) :
+    ∀ (fuel ofs : Nat) (st : RecvSt) (res : Words),
+      recvBitsLoopS .orOnly R0 R1 ch n fuel ofs st res = recvBitsLoop wordsHead R0 R1 ch n fuel ofs st res := by
+  intro fuel
+  induction fuel with
+  | zero => intro ofs st res; rfl
+  | succ f ih =>
+    intro ofs st res
+    simp only [recvBitsLoopS, recvBitsLoop, storeRows_orOnly, ih]
+
+theorem sendBitsLoopS_orOnly (SS : Nat → Nat → Byte) (delta : Label) (n : Nat) :
+    ∀ (fuel ofs : Nat) (ss : SendSt) (res : Words) (msgs : List Bytes),
+      sendBitsLoopS .orOnly SS delta n fuel ofs ss res msgs = sendBitsLoop SS delta n fuel ofs ss res msgs := by
+  intro fuel
+  induction fuel with
+  | zero => intro ofs ss res msgs; rfl
+  | succ f ih =>
+    intro ofs ss res msgs
+    cases msgs with
+    | nil => simp only [sendBitsLoopS, sendBitsLoop]
+    | cons c more => simp only [sendBitsLoopS, sendBitsLoop, storeRows_orOnly, ih]
+
+theorem receiveBitsS_orOnly (R0 R1 : Nat → Nat → Byte) (st : RecvSt) (ch res : Words) (n : Nat) :
+    receiveBitsS .orOnly R0 R1 st ch res n = receiveBits R0 R1 st ch res n := by
+  simp only [receiveBitsS, receiveBits, receiveBitsWith, recvBitsLoopS_orOnly]
+
+theorem sendBitsS_orOnly (SS : Nat → Nat → Byte) (delta : Label) (ss : SendSt) (n : Nat) (res : Words) (msgs : List Bytes) :
+    sendBitsS .orOnly SS delta ss n res msgs = sendBits SS delta ss n res msgs := by
+  simp only [sendBitsS, sendBits, sendBitsLoopS_orOnly]
+
+/-- `ReceiveBits`, both ways of storing: stream state and chunks do not depend
+on the result buffer; there are a pattern `D` (the computed bits) and an end
+`e` of the rows reached such that the OR-only loop leaves `old OR D` and the
+writing loop leaves `D` on `[ofs, e)` and the old content elsewhere. -/
+theorem recvBitsLoopS_spec (R0 R1 : Nat → Nat → Byte) (ch : Words) (n : Nat) :
+    ∀ (fuel ofs : Nat) (st : RecvSt), ∃ (st' : RecvSt) (msgs : List Bytes) (D : Nat → Bool) (e : Nat),
+      ofs ≤ e ∧ (n - ofs ≤ fuel → e = max ofs n) ∧ (∀ j, ¬ (ofs ≤ j ∧ j < e) → D j = false) ∧
       ∀ res : Words, (n + 63) / 64 ≤ res.size →
-        ∃ w, recvBitsLoop wf R0 R1 ch n fuel ofs st res = (st', w, msgs) ∧ w.size = res.size ∧
-          ∀ j, bitAt w j = (bitAt res j || D j) := by
+        (∃ w, recvBitsLoopS .orOnly R0 R1 ch n fuel ofs st res = (st', w, msgs) ∧ w.size = res.size ∧
+          ∀ j, bitAt w j = (bitAt res j || D j)) ∧
+        (∃ w, recvBitsLoopS .write R0 R1 ch n fuel ofs st res = (st', w, msgs) ∧ w.size = res.size ∧
+          ∀ j, bitAt w j = if ofs ≤ j ∧ j < e then D j else bitAt res j) := by
   intro fuel
   induction fuel with
   | zero =>
     intro ofs st
-    exact ⟨st, [], fun _ => false, fun res _ => ⟨res, rfl, rfl, fun j => by simp⟩⟩
+    refine ⟨st, [], fun _ => false, ofs, Nat.le_refl _, fun h => by omega, fun _ _ => rfl, fun res _ => ?_⟩
+    refine ⟨⟨res, rfl, rfl, fun j => by simp⟩, ⟨res, rfl, rfl, fun j => ?_⟩⟩
+    have : ¬ (ofs ≤ j ∧ j < ofs) := by omega
+    simp [this]
   | succ f ih =>
     intro ofs st
     by_cases ho : ofs < n
-    · obtain ⟨st', msgs, D, h⟩ := ih (ofs + min chunkRows (n - ofs)) (st.adv ((min chunkRows (n - ofs) + 7) / 8))
+    · obtain ⟨st', msgs, D, e, he1, he2, hD, h⟩ :=
+        ih (ofs + min chunkRows (n - ofs)) (st.adv ((min chunkRows (n - ofs) + 7) / 8))
+      have hrows : 1 ≤ min chunkRows (n - ofs) ∧ ofs + min chunkRows (n - ofs) ≤ n := by unfold chunkRows; omega
       refine ⟨st', (recvCols R0 R1 st ((min chunkRows (n - ofs) + 7) / 8)
-          fun tmp => xorWords tmp ch (ofs / 64) (wf ((min chunkRows (n - ofs) + 7) / 8))).1 :: msgs,
-        fun j => (decide (ofs ≤ j ∧ j < ofs + min chunkRows (n - ofs)) &&
+          fun tmp => xorWords tmp ch (ofs / 64) (wordsHead ((min chunkRows (n - ofs) + 7) / 8))).1 :: msgs,
+        fun j => if ofs ≤ j ∧ j < ofs + min chunkRows (n - ofs) then
           labelBit ((createLabels chunkRows (recvCols R0 R1 st ((min chunkRows (n - ofs) + 7) / 8)
-            fun tmp => xorWords tmp ch (ofs / 64) (wf ((min chunkRows (n - ofs) + 7) / 8))).2
-            ((min chunkRows (n - ofs) + 7) / 8)).getD (j - ofs) 0#128) 0) || D j, ?_⟩
-      intro res hres
-      obtain ⟨w, e1, e2, e3⟩ := h (orRows res ofs (min chunkRows (n - ofs)) fun row =>
-          labelBit ((createLabels chunkRows (recvCols R0 R1 st ((min chunkRows (n - ofs) + 7) / 8)
-            fun tmp => xorWords tmp ch (ofs / 64) (wf ((min chunkRows (n - ofs) + 7) / 8))).2
-            ((min chunkRows (n - ofs) + 7) / 8)).getD row 0#128) 0) (by simpa using hres)
-      refine ⟨w, ?_, by simpa using e2, ?_⟩
-      · simp only [recvBitsLoop, ho, if_true]
-        rw [e1]
-      · intro j
-        rw [e3 j, bitAt_orRows _ _ _ _ _ (by unfold chunkRows; omega), Bool.or_assoc]
-    · exact ⟨st, [], fun _ => false, fun res _ => ⟨res, by simp [recvBitsLoop, ho], rfl, fun j => by simp⟩⟩
+            fun tmp => xorWords tmp ch (ofs / 64) (wordsHead ((min chunkRows (n - ofs) + 7) / 8))).2
+            ((min chunkRows (n - ofs) + 7) / 8)).getD (j - ofs) 0#128) 0 else D j,
+        e, by omega, fun hf => by rw [he2 (by omega)]; omega, ?_, ?_⟩
+      · intro j hj
+        have h1 : ¬ (ofs ≤ j ∧ j < ofs + min chunkRows (n - ofs)) := by omega
+        dsimp only
+        rw [if_neg h1]
+        exact hD j (by omega)
+      · intro res hres
+        constructor
+        · obtain ⟨⟨w, e1, e2, e3⟩, _⟩ := h (orRows res ofs (min chunkRows (n - ofs)) fun row =>
+            labelBit ((createLabels chunkRows (recvCols R0 R1 st ((min chunkRows (n - ofs) + 7) / 8)
+              fun tmp => xorWords tmp ch (ofs / 64) (wordsHead ((min chunkRows (n - ofs) + 7) / 8))).2
+              ((min chunkRows (n - ofs) + 7) / 8)).getD row 0#128) 0) (by simpa using hres)
+          refine ⟨w, ?_, by simpa using e2, ?_⟩
+          · simp only [recvBitsLoopS, ho, if_true, storeRows_orOnly]
+            rw [e1]
+          · intro j
+            rw [e3 j, bitAt_orRows _ _ _ _ _ (by omega), Bool.or_assoc]
+            congr 1
+            dsimp only
+            by_cases h1 : ofs ≤ j ∧ j < ofs + min chunkRows (n - ofs)
+            · rw [if_pos h1, hD j (by omega)]; simp [h1]
+            · rw [if_neg h1]; simp [h1]
+        · obtain ⟨s1, s2⟩ := storeRows_write_spec res ofs (fun row =>
+            labelBit ((createLabels chunkRows (recvCols R0 R1 st ((min chunkRows (n - ofs) + 7) / 8)
+              fun tmp => xorWords tmp ch (ofs / 64) (wordsHead ((min chunkRows (n - ofs) + 7) / 8))).2
+              ((min chunkRows (n - ofs) + 7) / 8)).getD row 0#128) 0) (min chunkRows (n - ofs)) (by omega)
+          obtain ⟨_, ⟨w, e1, e2, e3⟩⟩ := h (storeRows .write res ofs (min chunkRows (n - ofs)) fun row =>
+            labelBit ((createLabels chunkRows (recvCols R0 R1 st ((min chunkRows (n - ofs) + 7) / 8)
+              fun tmp => xorWords tmp ch (ofs / 64) (wordsHead ((min chunkRows (n - ofs) + 7) / 8))).2
+              ((min chunkRows (n - ofs) + 7) / 8)).getD row 0#128) 0) (by rw [s1]; exact hres)
+          refine ⟨w, ?_, by rw [e2, s1], ?_⟩
+          · simp only [recvBitsLoopS, ho, if_true]
+            rw [e1]
+          · intro j
+            rw [e3 j, s2 j]
+            dsimp only
+            by_cases h1 : ofs ≤ j ∧ j < ofs + min chunkRows (n - ofs)
+            · have h2 : ¬ (ofs + min chunkRows (n - ofs) ≤ j ∧ j < e) := by omega
+              have h3 : ofs ≤ j ∧ j < e := by omega
+              rw [if_neg h2, if_pos h1, if_pos h3, if_pos h1]
+            · rw [if_neg h1]
+              by_cases h2 : ofs + min chunkRows (n - ofs) ≤ j ∧ j < e
+              · have h3 : ofs ≤ j ∧ j < e := by omega
+                rw [if_pos h2, if_pos h3, if_neg h1]
+              · have h3 : ¬ (ofs ≤ j ∧ j < e) := by omega
+                rw [if_neg h2, if_neg h3]
+    · refine ⟨st, [], fun _ => false, ofs, Nat.le_refl _, fun _ => by omega, fun _ _ => rfl, fun res _ => ?_⟩
+      refine ⟨⟨res, by simp [recvBitsLoopS, ho], rfl, fun j => by simp⟩, ⟨res, by simp [recvBitsLoopS, ho], rfl, fun j => ?_⟩⟩
+      have : ¬ (ofs ≤ j ∧ j < ofs) := by omega
+      simp [this]
 
-/-- `SendBits`: the same for the sender (it may fail, but whether it does is
-independent of the buffer). -/
-theorem sendBitsLoop_or (SS : Nat → Nat → Byte) (delta : Label) (n : Nat) :
+/-- `SendBits`, both ways of storing (it may fail, but whether it does is
+independent of the buffer and of the way of storing). -/
+theorem sendBitsLoopS_spec (SS : Nat → Nat → Byte) (delta : Label) (n : Nat) :
     ∀ (fuel ofs : Nat) (ss : SendSt) (msgs : List Bytes),
-      (∀ res : Words, (n + 63) / 64 ≤ res.size → sendBitsLoop SS delta n fuel ofs ss res msgs = none) ∨
-      ∃ (ss' : SendSt) (rest : List Bytes) (D : Nat → Bool),
+      (∀ (bs : BitStore) (res : Words), (n + 63) / 64 ≤ res.size →
+        sendBitsLoopS bs SS delta n fuel ofs ss res msgs = none) ∨
+      ∃ (ss' : SendSt) (rest : List Bytes) (D : Nat → Bool) (e : Nat),
+        e = max ofs n ∧ (∀ j, ¬ (ofs ≤ j ∧ j < e) → D j = false) ∧
         ∀ res : Words, (n + 63) / 64 ≤ res.size →
-          ∃ w, sendBitsLoop SS delta n fuel ofs ss res msgs = some (ss', w, rest) ∧ w.size = res.size ∧
-            ∀ j, bitAt w j = (bitAt res j || D j) := by
+          (∃ w, sendBitsLoopS .orOnly SS delta n fuel ofs ss res msgs = some (ss', w, rest) ∧ w.size = res.size ∧
+            ∀ j, bitAt w j = (bitAt res j || D j)) ∧
+          (∃ w, sendBitsLoopS .write SS delta n fuel ofs ss res msgs = some (ss', w, rest) ∧ w.size = res.size ∧
+            ∀ j, bitAt w j = if ofs ≤ j ∧ j < e then D j else bitAt res j) := by
   intro fuel
   induction fuel with
   | zero =>
     intro ofs ss msgs
     by_cases ho : ofs < n
-    · left; intro res _; simp [sendBitsLoop, ho]
+    · left; intro bs res _; simp [sendBitsLoopS, ho]
     · right
-      exact ⟨ss, msgs, fun _ => false, fun res _ => ⟨res, by simp [sendBitsLoop, ho], rfl, fun j => by simp⟩⟩
+      refine ⟨ss, msgs, fun _ => false, ofs, by omega, fun _ _ => rfl, fun res _ => ?_⟩
+      refine ⟨⟨res, by simp [sendBitsLoopS, ho], rfl, fun j => by simp⟩, ⟨res, by simp [sendBitsLoopS, ho], rfl, fun j => ?_⟩⟩
+      have : ¬ (ofs ≤ j ∧ j < ofs) := by omega
+      simp [this]
   | succ f ih =>
     intro ofs ss msgs
     by_cases ho : ofs < n
     · cases msgs with
-      | nil => left; intro res _; simp [sendBitsLoop, ho]
+      | nil => left; intro bs res _; simp [sendBitsLoopS, ho]
       | cons chunk more =>
         by_cases hk : chunk.size % K ≠ 0
-        · left; intro res _; simp only [sendBitsLoop, ho, if_true]; rw [if_pos hk]
+        · left; intro bs res _; simp only [sendBitsLoopS, ho, if_true]; rw [if_pos hk]
         · by_cases hw : chunk.size / K > chunkByteRows
-          · left; intro res _; simp only [sendBitsLoop, ho, if_true]; rw [if_neg hk, if_pos hw]
-          · rcases ih (ofs + min (chunk.size / K * 8) (n - ofs)) (ss.adv (chunk.size / K)) more with hn | ⟨ss', rest, D, h⟩
+          · left; intro bs res _; simp only [sendBitsLoopS, ho, if_true]; rw [if_neg hk, if_pos hw]
+          · rcases ih (ofs + min (chunk.size / K * 8) (n - ofs)) (ss.adv (chunk.size / K)) more with
+              hn | ⟨ss', rest, D, e, he, hD, h⟩
             · left
-              intro res hres
-              simp only [sendBitsLoop, ho, if_true]
+              intro bs res hres
+              simp only [sendBitsLoopS, ho, if_true]
               rw [if_neg hk, if_neg hw]
-              exact hn _ (by simpa using hres)
+              apply hn
+              cases bs with
+              | orOnly => rw [storeRows_orOnly]; simpa using hres
+              | write => rw [(storeRows_write_spec res ofs _ _ (by omega)).1]; exact hres
             · right
-              refine ⟨ss', rest, fun j => (decide (ofs ≤ j ∧ j < ofs + min (chunk.size / K * 8) (n - ofs)) &&
-                  (bget (sendCols SS delta ss chunk (chunk.size / K)) ((j - ofs) / 8)).getLsbD ((j - ofs) % 8)) || D j, ?_⟩
-              intro res hres
-              obtain ⟨w, e1, e2, e3⟩ := h (orRows res ofs (min (chunk.size / K * 8) (n - ofs)) fun row =>
-                (bget (sendCols SS delta ss chunk (chunk.size / K)) (row / 8)).getLsbD (row % 8)) (by simpa using hres)
-              refine ⟨w, ?_, by simpa using e2, ?_⟩
-              · simp only [sendBitsLoop, ho, if_true]
-                rw [if_neg hk, if_neg hw]
-                exact e1
-              · intro j
-                rw [e3 j, bitAt_orRows _ _ _ _ _ (by omega), Bool.or_assoc]
+              have hmr : ofs + min (chunk.size / K * 8) (n - ofs) ≤ n := by omega
+              refine ⟨ss', rest, fun j => if ofs ≤ j ∧ j < ofs + min (chunk.size / K * 8) (n - ofs) then
+                  (bget (sendCols SS delta ss chunk (chunk.size / K)) ((j - ofs) / 8)).getLsbD ((j - ofs) % 8) else D j,
+                e, by omega, ?_, ?_⟩
+              · intro j hj
+                have h1 : ¬ (ofs ≤ j ∧ j < ofs + min (chunk.size / K * 8) (n - ofs)) := by omega
+                dsimp only
+                rw [if_neg h1]
+                exact hD j (by omega)
+              · intro res hres
+                constructor
+                · obtain ⟨⟨w, e1, e2, e3⟩, _⟩ := h (orRows res ofs (min (chunk.size / K * 8) (n - ofs)) fun row =>
+                    (bget (sendCols SS delta ss chunk (chunk.size / K)) (row / 8)).getLsbD (row % 8)) (by simpa using hres)
+                  refine ⟨w, ?_, by simpa using e2, ?_⟩
+                  · simp only [sendBitsLoopS, ho, if_true, storeRows_orOnly]
+                    rw [if_neg hk, if_neg hw]
+                    exact e1
+                  · intro j
+                    rw [e3 j, bitAt_orRows _ _ _ _ _ (by omega), Bool.or_assoc]
+                    congr 1
+                    dsimp only
+                    by_cases h1 : ofs ≤ j ∧ j < ofs + min (chunk.size / K * 8) (n - ofs)
+                    · rw [if_pos h1, hD j (by omega)]; simp [h1]
+                    · rw [if_neg h1]; simp [h1]
+                · obtain ⟨s1, s2⟩ := storeRows_write_spec res ofs (fun row =>
+                    (bget (sendCols SS delta ss chunk (chunk.size / K)) (row / 8)).getLsbD (row % 8))
+                    (min (chunk.size / K * 8) (n - ofs)) (by omega)
+                  obtain ⟨_, ⟨w, e1, e2, e3⟩⟩ := h (storeRows .write res ofs (min (chunk.size / K * 8) (n - ofs)) fun row =>
+                    (bget (sendCols SS delta ss chunk (chunk.size / K)) (row / 8)).getLsbD (row % 8)) (by rw [s1]; exact hres)
+                  refine ⟨w, ?_, by rw [e2, s1], ?_⟩
+                  · simp only [sendBitsLoopS, ho, if_true]
+                    rw [if_neg hk, if_neg hw]
+                    exact e1
+                  · intro j
+                    rw [e3 j, s2 j]
+                    dsimp only
+                    by_cases h1 : ofs ≤ j ∧ j < ofs + min (chunk.size / K * 8) (n - ofs)
+                    · have h2 : ¬ (ofs + min (chunk.size / K * 8) (n - ofs) ≤ j ∧ j < e) := by omega
+                      have h3 : ofs ≤ j ∧ j < e := by omega
+                      rw [if_neg h2, if_pos h1, if_pos h3, if_pos h1]
+                    · rw [if_neg h1]
+                      by_cases h2 : ofs + min (chunk.size / K * 8) (n - ofs) ≤ j ∧ j < e
+                      · have h3 : ofs ≤ j ∧ j < e := by omega
+                        rw [if_pos h2, if_pos h3, if_neg h1]
+                      · have h3 : ¬ (ofs ≤ j ∧ j < e) := by omega
+                        rw [if_neg h2, if_neg h3]
     · right
-      exact ⟨ss, msgs, fun _ => false, fun res _ => ⟨res, by simp [sendBitsLoop, ho], rfl, fun j => by simp⟩⟩
+      refine ⟨ss, msgs, fun _ => false, ofs, by omega, fun _ _ => rfl, fun res _ => ?_⟩
+      refine ⟨⟨res, by simp [sendBitsLoopS, ho], rfl, fun j => by simp⟩, ⟨res, by simp [sendBitsLoopS, ho], rfl, fun j => ?_⟩⟩
+      have : ¬ (ofs ≤ j ∧ j < ofs) := by omega
+      simp [this]
 
 theorem bitAt_zerosW (m j : Nat) : bitAt (zerosW m) j = false := bitAt_zeroWords m j
 
-/-- One packed-bit call on ARBITRARY result buffers (any content, at least the
-needed length): no error branch, the streams end in step, and both buffers end
-as their old content OR the outputs `rw0`, `sw0` of the same call on zeroed
-buffers — which are the ones that satisfy the correlation. -/
-theorem bits_call_dirty (R0 R1 SS : Nat → Nat → Byte) (delta : Label) (hb : BaseOK R0 R1 SS delta)
+/-- One packed-bit call (the writing store of /repo HEAD) on ARBITRARY result
+buffers (any content, at least the needed length): no error branch, the streams
+end in step, both buffers keep their lengths, every position `< n` holds
+exactly the correlated bit, and every position `≥ n` is unchanged. -/
+theorem bits_call_write (R0 R1 SS : Nat → Nat → Byte) (delta : Label) (hb : BaseOK R0 R1 SS delta)
     (rs : RecvSt) (ss : SendSt) (hs : InStep rs ss) (choices : Words) (n : Nat)
     (hch : (n + 63) / 64 ≤ choices.size) (rwin swin : Words)
     (hr : (n + 63) / 64 ≤ rwin.size) (hsw : (n + 63) / 64 ≤ swin.size) :
-    ∃ rs' ss' rw sw msgs rw0 sw0,
-      receiveBits R0 R1 rs choices rwin n = some (rs', rw, msgs) ∧
-      sendBits SS delta ss n swin msgs = some (ss', sw, []) ∧
-      InStep rs' ss' ∧
-      (∀ j, j < n → bitAt rw0 j = (bitAt sw0 j ^^ (labelBit delta 0 && bitAt choices j))) ∧
-      (∀ j, n ≤ j → bitAt rw0 j = false ∧ bitAt sw0 j = false) ∧
-      OrOf rwin rw0 rw ∧ OrOf swin sw0 sw := by
-  obtain ⟨rs', ss', rw0, sw0, msgs, h1, h2, h3, _, _, h6, h7⟩ :=
+    ∃ rs' ss' rw sw msgs,
+      receiveBitsS .write R0 R1 rs choices rwin n = some (rs', rw, msgs) ∧
+      sendBitsS .write SS delta ss n swin msgs = some (ss', sw, []) ∧
+      InStep rs' ss' ∧ rw.size = rwin.size ∧ sw.size = swin.size ∧
+      (∀ j, j < n → bitAt rw j = (bitAt sw j ^^ (labelBit delta 0 && bitAt choices j))) ∧
+      (∀ j, n ≤ j → bitAt rw j = bitAt rwin j ∧ bitAt sw j = bitAt swin j) := by
+  obtain ⟨rs', ss', rw0, sw0, msgs, h1, h2, h3, _, _, h6, _⟩ :=
     bits_call wordsHead R0 R1 SS delta hb rs ss hs choices n hch []
   rw [List.append_nil] at h2
   have hz : (n + 63) / 64 ≤ (mk ((n + 63) / 64) fun _ => (0#64 : BitVec 64)).size := by simp
-  -- receiver
-  obtain ⟨st', m', D, hD⟩ := recvBitsLoop_or wordsHead R0 R1 choices n n 0 rs
-  obtain ⟨wz, z1, _, z3⟩ := hD _ hz
-  obtain ⟨w, d1, d2, d3⟩ := hD rwin hr
   have e1 : ¬ ((n + 63) / 64 > choices.size) := by omega
   have ez : ¬ ((n + 63) / 64 > (mk ((n + 63) / 64) fun _ => (0#64 : BitVec 64)).size) := by simp
+  -- receiver
+  obtain ⟨st', m', D, e, _, he, _, hD⟩ := recvBitsLoopS_spec R0 R1 choices n n 0 rs
+  have he' : n = e := by rw [he (by omega)]; omega
+  subst he'
+  obtain ⟨⟨wz, z1, _, z3⟩, _⟩ := hD _ hz
+  obtain ⟨_, ⟨w, d1, d2, d3⟩⟩ := hD rwin hr
   have h1' := h1
   unfold receiveBitsWith at h1'
-  rw [if_neg e1, if_neg ez, z1] at h1'
+  rw [if_neg e1, if_neg ez, ← recvBitsLoopS_orOnly, z1] at h1'
   simp only [Option.some.injEq, Prod.mk.injEq] at h1'
   obtain ⟨a1, a2, a3⟩ := h1'
   subst a1 a2 a3
   -- sender
   have h2' := h2
   unfold sendBits at h2'
-  rw [if_neg ez] at h2'
-  rcases sendBitsLoop_or SS delta n (n + 1) 0 ss m' with hn | ⟨ss'', rest, E, hE⟩
-  · rw [hn _ hz] at h2'; cases h2'
-  · obtain ⟨vz, y1, _, y3⟩ := hE _ hz
-    obtain ⟨v, f1, f2, f3⟩ := hE swin hsw
+  rw [if_neg ez, ← sendBitsLoopS_orOnly] at h2'
+  rcases sendBitsLoopS_spec SS delta n (n + 1) 0 ss m' with hn | ⟨ss'', rest, E, e, he, _, hE⟩
+  · rw [hn _ _ hz] at h2'; cases h2'
+  · have he' : n = e := by omega
+    subst he'
+    obtain ⟨⟨vz, y1, _, y3⟩, _⟩ := hE _ hz
+    obtain ⟨_, ⟨v, f1, f2, f3⟩⟩ := hE swin hsw
     rw [y1] at h2'
     simp only [Option.some.injEq, Prod.mk.injEq] at h2'
     obtain ⟨b1, b2, b3⟩ := h2'
     subst b1 b2 b3
-    refine ⟨st', ss'', w, v, m', wz, vz, ?_, ?_, h3, ?_, h7, ⟨d2, ?_⟩, ⟨f2, ?_⟩⟩
-    · unfold receiveBits receiveBitsWith
+    refine ⟨st', ss'', w, v, m', ?_, ?_, h3, d2, f2, ?_, ?_⟩
+    · unfold receiveBitsS
       rw [if_neg e1, if_neg (by omega), d1]
-    · unfold sendBits
+    · unfold sendBitsS
       rw [if_neg (by omega), f1]
     · intro j hj
-      rw [h6 j hj, covered_head n j hj, Bool.true_and]
-    · intro j
-      rw [d3 j, z3 j, bitAt_zeroWords, Bool.false_or]
-    · intro j
-      rw [f3 j, y3 j, bitAt_zeroWords, Bool.false_or]
+      have hr1 : 0 ≤ j ∧ j < n := by omega
+      have a := h6 j hj
+      rw [covered_head n j hj, Bool.true_and, z3 j, y3 j, bitAt_zeroWords, Bool.false_or, Bool.false_or] at a
+      rw [d3 j, f3 j, if_pos hr1, if_pos hr1]
+      exact a
+    · intro j hj
+      have hr1 : ¬ (0 ≤ j ∧ j < n) := by omega
+      rw [d3 j, f3 j, if_neg hr1, if_neg hr1]
+      exact ⟨rfl, rfl⟩
 
 /-! ### Histories of calls with named output buffers -/
 
@@ -335,20 +536,18 @@ def CallB.WF (SL SW : Nat) : CallB → Prop
   | .bits n ch rbuf sbuf =>
     (n + 63) / 64 ≤ ch.size ∧ rbuf.WF SW ((n + 63) / 64) false ∧ sbuf.WF SW ((n + 63) / 64) false
 
-/-- What a call of a history must deliver.  Label form: exactly `CallSpec`
-(`received_i = sent_i xor choice_i*Delta` on the receiver's slice, whatever it
-held).  Packed-bit form — PARTIAL: both slices end as their old content OR the
-outputs `rw0`, `sw0` of the call on zeroed buffers, and those satisfy the
-correlation; hence `received_j = sent_j xor (Delta.Bit(0) and choice_j)` holds
-at the positions whose bits were clear in both slices, and only there in
-general (`C06_iknp_bits_dirty_witness`). -/
+/-- What a call of a history must deliver, whatever the buffers held.  Label
+form: exactly `CallSpec` (`received_i = sent_i xor choice_i*Delta` on the
+receiver's slice).  Packed-bit form: both slices keep their lengths,
+`received_j = sent_j xor (Delta.Bit(0) and choice_j)` at every position `< n`,
+and every position `≥ n` (the rest of the last word and all later words of a
+longer-than-needed slice) is unchanged. -/
 def CallSpecB (delta : Label) : CallB → CallOutB → Prop
   | .labels mal b b0 b1 _, o => CallSpec delta (.labels mal b b0 b1) o.out
   | .bits n ch _ _, o =>
-    ∃ rw0 sw0,
-      (∀ j, j < n → bitAt rw0 j = (bitAt sw0 j ^^ (labelBit delta 0 && bitAt ch j))) ∧
-      (∀ j, n ≤ j → bitAt rw0 j = false ∧ bitAt sw0 j = false) ∧
-      OrOf o.initRW rw0 o.out.rcvdW ∧ OrOf o.initSW sw0 o.out.sentW
+    o.out.rcvdW.size = o.initRW.size ∧ o.out.sentW.size = o.initSW.size ∧
+    (∀ j, j < n → bitAt o.out.rcvdW j = (bitAt o.out.sentW j ^^ (labelBit delta 0 && bitAt ch j))) ∧
+    (∀ j, n ≤ j → bitAt o.out.rcvdW j = bitAt o.initRW j ∧ bitAt o.out.sentW j = bitAt o.initSW j)
 
 @[simp] theorem size_window {α : Type} (d : α) (a : Array α) (off len : Nat) : (window d a off len).size = len := by
   simp [window]
@@ -378,7 +577,7 @@ leaves them in step and the arrays at their sizes, and meets `CallSpecB`. -/
 theorem call_okB (R0 R1 SS : Nat → Nat → Byte) (delta : Label) (hb : BaseOK R0 R1 SS delta)
     (rs : RecvSt) (ss : SendSt) (hs : InStep rs ss) (ar : Arena) (SL SW : Nat) (har : ar.Sized SL SW)
     (c : CallB) (hc : c.WF SL SW) :
-    ∃ rs' ss' ar' out u, runCallB Store.assign R0 R1 SS delta rs ss ar c = some (rs', ss', ar', out, u) ∧
+    ∃ rs' ss' ar' out u, runCallB Store.assign .write R0 R1 SS delta rs ss ar c = some (rs', ss', ar', out, u) ∧
       InStep rs' ss' ∧ ar'.Sized SL SW ∧ CallSpecB delta c out := by
   obtain ⟨hL, hRW, hSW⟩ := har
   cases c with
@@ -407,13 +606,13 @@ theorem call_okB (R0 R1 SS : Nat → Nat → Byte) (delta : Label) (hb : BaseOK 
     obtain ⟨hch, hwr, hws⟩ := hc
     obtain ⟨ra, roff, rlen, r1, r2, _, r4⟩ := resolve_ok 0#64 ar.rwords SW ((n + 63) / 64) false rbuf hRW hwr
     obtain ⟨sa, soff, slen, s1, s2, _, s4⟩ := resolve_ok 0#64 ar.swords SW ((n + 63) / 64) false sbuf hSW hws
-    obtain ⟨rs', ss', rw, sw, msgs, rw0, sw0, g1, g2, g3, g4, g5, g6, g7⟩ :=
-      bits_call_dirty R0 R1 SS delta hb rs ss hs ch n hch (window 0#64 ra roff rlen) (window 0#64 sa soff slen)
+    obtain ⟨rs', ss', rw, sw, msgs, g1, g2, g3, g4, g5, g6, g7⟩ :=
+      bits_call_write R0 R1 SS delta hb rs ss hs ch n hch (window 0#64 ra roff rlen) (window 0#64 sa soff slen)
         (by simpa using r2) (by simpa using s2)
     refine ⟨rs', ss', { ar with rwords := rbuf.commit 0#64 ar.rwords ra roff rw,
                                 swords := sbuf.commit 0#64 ar.swords sa soff sw },
       { out := { sentW := sw, rcvdW := rw }, initRW := window 0#64 ra roff rlen, initSW := window 0#64 sa soff slen },
-      msgs, ?_, g3, ⟨hL, r4 _, s4 _⟩, rw0, sw0, g4, g5, g6, g7⟩
+      msgs, ?_, g3, ⟨hL, r4 _, s4 _⟩, g4, g5, g6, g7⟩
     simp only [runCallB, r1, s1, g1, g2]
 
 /-- Every history of well-formed calls runs to completion and every call
@@ -421,7 +620,7 @@ meets `CallSpecB`. -/
 theorem sessionB_ok (R0 R1 SS : Nat → Nat → Byte) (delta : Label) (hb : BaseOK R0 R1 SS delta) (SL SW : Nat) :
     ∀ (cs : List CallB) (rs : RecvSt) (ss : SendSt) (ar : Arena), InStep rs ss → ar.Sized SL SW →
       (∀ c ∈ cs, c.WF SL SW) →
-      ∃ outs, sessionB Store.assign R0 R1 SS delta rs ss ar cs = some outs ∧ outs.length = cs.length ∧
+      ∃ outs, sessionB Store.assign .write R0 R1 SS delta rs ss ar cs = some outs ∧ outs.length = cs.length ∧
         ∀ k (hk : k < cs.length) (hk' : k < outs.length), CallSpecB delta cs[k] outs[k] := by
   intro cs
   induction cs with
